@@ -23,7 +23,7 @@ def languages(thorough):
                            RelOps=['<'], AddOps=['+'], MulOps=['/'], PowOps=[], NegOps=[], Strs=[], Consts=[],
                            RangeL=['['], RangeR=[']!'], CallFuns=['len'], SetLens=[1], Fields=[])))
     L.append(('prop', dict(Start=30, MaxTok=11 if thorough else 10, PredPool='SmallPool', Channels=['t', 'u'],
-                           Times=['100', '0'], DisjLens=[2] if not thorough else [2, 3])))
+                           Times=['100', '0', '700'] if not thorough else ['100', '0', '700', '9', '350'], DisjLens=[2] if not thorough else [2, 3])))
     return L
 
 
@@ -34,7 +34,7 @@ def simulated(thorough):
         ('expr_sim', dict(Start=0, MaxTok=24, Names=['a', 'b'], Fields=['f', 'g'], Nums=['1', '2'], CallFuns=['abs', 'len'],
                           Consts=['PI', 'E', 'INF'], Vars=['@v', '@w'], SetLens=[1, 2, 3]), n),
         ('pred_sim', dict(Start=26, MaxTok=26, Names=['a', 'b'], Fields=['f'], Nums=['1', '0'], CallFuns=['abs', 'sum'], SetLens=[1, 2]), n),
-        ('prop_sim', dict(Start=30, MaxTok=34, PredPool=None, Channels=['t', 'u', 'w'], AliasNames=['A', 'B'], Times=['100', '0', '3'],
+        ('prop_sim', dict(Start=30, MaxTok=34, PredPool=None, Channels=['t', 'u', 'w'], AliasNames=['A', 'B'], Times=['100', '0', '3', '13', '700'],
                           DisjLens=[2, 3], Names=['a'], Fields=['f'], Consts=[], Strs=[], CallFuns=['abs'], SetLens=[1],
                           IfOps=['implies'], MulOps=['*'], PowOps=[], RangeL=['['], RangeR=[']', ']!']), n),
     ]
